@@ -165,7 +165,7 @@ def shard(p):
             es = [rng.choice(single) for _ in range(k)]
             if rng.random() < 0.03:
                 # one pumped word: a short unit or pair of units repeated 8-40 times (NsNsNs...): fixed-size buffers per word
-                short = [e for e in single if len(e["word"]) <= 2 and e["bare"]]
+                short = [e for e in single if len(e["word"]) <= 2 and (e["bare"] or rng.random() < 0.3)]      # (also prefixed two-letter words: hs, cm, dl)
                 for _try in range(8):
                     base = [rng.choice(short) for _ in range(rng.choice([1, 2, 2]))]
                     bw = "".join(e["word"] for e in base)
@@ -175,7 +175,7 @@ def shard(p):
                         break
                 else:
                     continue
-                es = base * rng.choice([8, 9, 12, 16, 17, 20, 33][: 7 if len(base) == 1 else 5])
+                es = base * (rng.choice([8, 9, 12, 16, 17, 20, 33][: 7 if len(base) == 1 else 5]) if rng.random() < 0.5 else rng.randint(2, 40 if len(base) == 1 else 24))
             elif len({e["key"] for e in es}) != k:
                 continue
             w = "".join(e["word"] for e in es)
